@@ -524,9 +524,59 @@ def u_lowerbound_mgs():
     return [mk("flowpaths/minflowdecomp.py", "MinFlowDecomp"), mk("flowpaths/minflowdecompcycles.py", "MinFlowDecompCycles")]
 
 
+def u_solver_init():
+    """SolverWrapper.__init__ (HiGHS): what `kOptimal` is allowed to mean.  ensures: the absolute and the relative MIP gap handed to HiGHS are at most the wrapper's tolerance
+    (default 1e-9, a smaller one is rejected with ValueError), whatever order the options are written in (auxiliary: they and the two feasibility tolerances are exactly it); the time limit handed over is the requested one; a fresh wrapper has not timed out and has no queued bound change."""
+    def h(c, f):
+        opts, order = {}, []
+
+        class Highs:
+            def setOptionValue(self, k, v):
+                opts[k] = v
+                order.append(k)
+
+        class SWCls:
+            external_solver, time_limit, use_also_custom_timeout, optimization_sense, threads, presolve, log_to_console = "highs", float("inf"), False, "minimize", 4, "choose", "false"
+            tolerance = 1e-9
+        tol = c.fresh_const("tolerance", REAL)
+        tl = c.fresh_const("time_limit", REAL)
+
+        class Me(Tracked):
+            pass
+        me = Me()
+        st["SW"], st["H"] = SWCls, Highs
+        try:
+            f(me, tolerance=Sym(tol), time_limit=Sym(tl))
+        except ValueError:
+            c.prove("xpost:ValueError-only-for-a-tolerance-below-1e-9", tol < z3.RealVal("1/1000000000"), prop=P, kind="xpost")
+            return
+        c.prove("post:normal-return-only-for-a-tolerance-of-at-least-1e-9", tol >= z3.RealVal("1/1000000000"), prop=P)
+        for k in ("mip_abs_gap", "mip_rel_gap"):
+            v = opts.get(k)
+            c.prove("post:%s-handed-to-HiGHS-is-at-most-the-wrapper's-tolerance-(kOptimal=proven-optimal-up-to-it)" % k,
+                    z3.And(lift(v) <= tol, lift(v) >= 0) if isinstance(v, Sym) else z3.BoolVal(isinstance(v, (int, float)) and 0 <= v <= 1e-9), prop=P)
+        for k in ("mip_abs_gap", "mip_rel_gap", "mip_feasibility_tolerance", "primal_feasibility_tolerance"):
+            v = opts.get(k)
+            c.prove("post(auxiliary):%s-is-exactly-the-wrapper's-tolerance" % k, (lift(v) == tol) if isinstance(v, Sym) else z3.BoolVal(False), prop=None)
+        v = opts.get("time_limit")
+        c.prove("post:the-time-limit-handed-to-HiGHS-is-the-requested-one", (lift(v) == tl) if isinstance(v, Sym) else z3.BoolVal(False), prop=P)
+        c.prove("post:a-fresh-wrapper-has-not-timed-out-and-has-no-queued-bound-changes",
+                z3.BoolVal(me.did_timeout is False and me._pending_fix_vars == [] and me._pending_fix_vals == [] and me._pending_lb_vars == [] and me._pending_lb_vals == []), prop=P)
+    st = {}
+
+    class SWProxy:
+        def __getattr__(self, k): return getattr(st["SW"], k)
+
+    from vf.replay import replay_solver_init
+    return Unit("flowpaths/utils/solverwrapper.py", "SolverWrapper.__init__", h, globs=dict(utils=UtilsStub, SolverWrapper=SWProxy(), HighsCustom=lambda: st["H"]()), props=[P],
+                rewrite_literals=False, replay=replay_solver_init,
+                assumptions=["HiGHS honours mip_abs_gap / mip_rel_gap: it reports kOptimal only when the incumbent is within these gaps of the best bound (trusted solver)",
+                             "only the HiGHS branch is under contract (Gurobi is not installed)"])
+
+
 def all_units():
     out = []
-    for g in (u_min_loops, u_mingenset_solve, u_abstract, u_getters, u_numpaths, u_minerrorflow_solve, u_minsetcover_solve, u_lowerbound_mgs):
+    for g in (u_solver_init, u_min_loops, u_mingenset_solve, u_abstract, u_getters, u_numpaths, u_minerrorflow_solve, u_minsetcover_solve, u_lowerbound_mgs):
         r = g()
         out += r if isinstance(r, list) else [r]
     return out
